@@ -101,9 +101,22 @@ func init() {
 			if vis == 1 {
 				sel.Visual(vl == 1)
 			}
+			// the same state, yanked (Pop) instead of deleted (Cut)
+			ln2 := core.Line(append([]rune{}, l...))
+			cur2 := core.NewCursor(&ln2)
+			cur2.Set(cp)
+			sel2 := core.NewSelection(&ln2, cur2)
+			sel2.MarkRange(b, e)
+			if vis == 1 {
+				sel2.Visual(vl == 1)
+			}
+			yanked, _, _, _ := sel2.Pop()
+			if string(ln2) != string(l) {
+				return "yank-changed-the-line"
+			}
 			pb, pe := sel.Pos()
 			txt := sel.Cut()
-			return fmt.Sprintf("ok %d %d %s %s", pb, pe, natsR([]rune(txt)), natsR([]rune(ln)))
+			return fmt.Sprintf("ok %d %d %s %s %s", pb, pe, natsR([]rune(txt)), natsR([]rune(ln)), natsR([]rune(yanked)))
 		})
 		class := fmt.Sprintf("vis%d/line%d", vis, vl)
 		return line, res, class
